@@ -189,17 +189,26 @@ def main(argv=None):
             doc = json.loads([l for l in pr.stdout.splitlines() if l.startswith("{")][-1])
         except Exception:
             doc = {"checked": 0, "counterexample": None, "error": (pr.stdout + pr.stderr)[-400:]}
-        ob = {"name": f"bounded.{nb['name']}", "kind": "bounded_native", "label": nb["name"], "line": 0, "path": "-",
-              "status": "failed" if doc.get("counterexample") else ("discharged" if doc.get("checked") else "unknown"),
-              "backend": "native enumeration", "secs": round(time.time() - t1, 2), "detail": doc.get("error", ""),
-              "model": doc.get("counterexample"), "smt_head": None, "bounded": nb["bound"], "native_checked": doc.get("checked", 0)}
+        # a script reports either one verdict or a list of named cases (one obligation each, so that a recorded finding in
+        # one case does not hide a new violation in another)
+        cases = doc.get("cases") or [{"name": None, "checked": doc.get("checked", 0), "counterexample": doc.get("counterexample")}]
+        obs_, refs_ = [], []
+        for cs in cases:
+            nm = f"bounded.{nb['name']}" + (f".{cs['name']}" if cs.get("name") else "")
+            ob = {"name": nm, "kind": "bounded_native", "label": nb["name"], "line": 0, "path": "-",
+                  "status": "failed" if cs.get("counterexample") else ("discharged" if cs.get("checked") else "unknown"),
+                  "backend": "native enumeration", "secs": round(time.time() - t1, 2), "detail": doc.get("error", ""),
+                  "model": cs.get("counterexample"), "smt_head": None, "bounded": nb["bound"], "native_checked": cs.get("checked", 0)}
+            obs_.append(ob)
+            if cs.get("counterexample"):
+                refs_.append({"bound": nb["bound"], "obligation": nm, "kind": "bounded_native", "label": nb["name"], "path": "-",
+                              "model": cs["counterexample"], "replay": {"built": True, "reproduced": True,
+                                                                        "detail": "found by running the real functions; rerun " + nb["script"]}})
+        ran = any(cs.get("checked") for cs in cases)
         results.append({"key": f"bounded::{nb['name']}", "file": nb["script"], "qualname": nb["name"], "sha256": "", "lines": [0, 0],
-                        "paths": 0, "error": None if doc.get("checked") else f"native bounded check did not run: {doc.get('error')}",
-                        "obligations": [ob], "log": [f"bounded stand-in {nb['name']}: {nb['what']} (bound: {nb['bound']})"],
-                        "refutations": ([{"bound": nb["bound"], "obligation": ob["name"], "kind": "bounded_native", "label": nb["name"], "path": "-",
-                                          "model": doc["counterexample"], "replay": {"built": True, "reproduced": True,
-                                                                                    "detail": "found by running the real functions; rerun " + nb["script"]}}]
-                                        if doc.get("counterexample") else []), "secs": round(time.time() - t1, 2), "bounded": nb["bound"]})
+                        "paths": 0, "error": None if ran else f"native bounded check did not run: {doc.get('error')}",
+                        "obligations": obs_, "log": [f"bounded stand-in {nb['name']}: {nb['what']} (bound: {nb['bound']})"],
+                        "refutations": refs_, "secs": round(time.time() - t1, 2), "bounded": nb["bound"]})
     for sc in REG.scans:
         if sc["prop"] != prop or a.only:
             continue
@@ -243,6 +252,8 @@ def report(prop, tier, seed, results, known, assumed, t0, verbose):
                 b = bounded.setdefault(r["qualname"], {"function": r["qualname"], "file": r["file"], "bound": o["bounded"],
                                                        "checked": 0, "held": 0, "undecided": 0,
                                                        "rule": "every list/dict/set has at most `bound` elements, loops unrolled `bound` times, quantifiers expanded"})
+                if o["kind"] == "bounded_native":
+                    b["rule"] = (r["log"][0] if r["log"] else "native enumeration on the real functions")
                 b["checked"] += o.get("native_checked", 1)
                 b["held"] += o.get("native_checked", 1) if o["status"] == "discharged" else 0
                 b["undecided"] += o["status"] == "unknown"
